@@ -20,9 +20,9 @@ CLAIMS = {
  "C10": ("Bounded model checking of every measurement <-> variation conversion pair found in app/gen/conversion.rs (69 pairs): measurement (all value bit patterns, flags, time) -> variation -> wire bytes -> variation -> measurement, with capability table from the standard: saturation + OVER_RANGE, low 16 bits for counters, state bits in flags, time carried exactly, nothing wrapped or sign-flipped.",
          "Static/event writers' header logic (promote, CTO grouping) and the master's extraction loop are not composed into these queries.",
          "DESIGN.md §5 C10"),
- "C11": ("Bounded model checking of the static-data half of a READ on the real StaticDatabase and RangeWriter: for a database of counters at indices 3,4,9 (all values symbolic), any requested range, any room in the first fragment and updates applied after the selection: the fragments together report every selected point exactly once, ascending, contiguous runs sharing a header, with the values at selection time; resumption is exact; packed binary variation chosen from the selected (not the current) flags.",
-         "Partial: three points, counter and binary types only; the FIR/FIN/CON series logic and the confirm gate between fragments are async and outside the claim.",
-         "DESIGN.md §5 C11"),
+ "C11": ("THIN. Bounded model checking of the static-data response writer (RangeWriter) only: points written at arbitrary ascending indices are reported once each, in order, contiguous runs sharing a header with a correctly patched stop field, bit-packed values LSB first; a point that does not fit leaves everything before it intact and signals the caller to resume in the next fragment.",
+         "The snapshot clause (selected vs current value), exactly-once across fragments and the resume index are decided in StaticDatabase, whose BTreeMap-backed code did not finish in three 40-minute formulations (attempt-only harnesses c11_snapshot_*); FIR/FIN/CON and the confirm gate are async. None of these is decided: exit 0 says nothing about them.",
+         "DESIGN.md §5 C11, §12 walls"),
  "C12": ("Bounded model checking of the synchronous response builders on a real OutstationSession: sequence = request's, UNS clear, FIR/FIN, objects exactly as specified and bounded, every object parse error maps to a non-empty IIN2, per-header rejections OR-ed (ENABLE/DISABLE_UNSOLICITED), restart-bit write semantics.",
          "The async dispatcher (which functions get no reply, WRITE's per-header loop, controls, wait states) is outside the claim; multi-header ENABLE/DISABLE cases only in the thorough tier (slow).",
          "DESIGN.md §5 C12"),
